@@ -2,6 +2,7 @@ import RV.Proofs.Kepler
 import RV.Proofs.KeplerTerm
 import RV.Proofs.KeplerBisect
 import RV.Proofs.KeplerDefect
+import RV.Proofs.Kepler512
 /-
   C03 — Kepler propagation is exact for every two-body orbit and time step.
 
@@ -454,6 +455,33 @@ theorem c03_elliptic_bracket_partial (M r0 eta0 beta dt xpp P k : R) (hb : beta 
   exact ⟨by rw [← o3, ← o4]; exact o1, by rw [← o3, ← o4]; exact o2, s1, s2⟩
 
 end bisect
+
+/-! ### WHFast512 (integrator_whfast512.c:167-336), exact arithmetic (fused multiply-adds = multiply, then add) -/
+
+/-- the vectorised f-g update at the end of `reb_whfast512_kepler_step` is the scalar update of
+    `reb_whfast_kepler_solver`; hence every `c03_fg_*` theorem (same energy, angular momentum, Laplace
+    vector, radius `r0 + η0 G1 + ζ0 G2`) holds for WHFast512 under the same hypotheses -/
+theorem c03_whfast512_fg_is_scalar_fg (M r0i ri dt g1 g2 g3 : K) (p : P6 K) :
+    fg512 M r0i ri dt g1 g2 g3 p = fgUpdate M r0i ri dt g1 g2 g3 p := fg512_eq M r0i ri dt g1 g2 g3 p
+
+/-- its NEWTON_STEP is the Newton step of the scalar solver on the same G values -/
+theorem c03_whfast512_newton_step (r0 eta0 zeta0 beta dt X : K) :
+    let g := gs13_512 beta X
+    newton512 r0 eta0 zeta0 beta dt X =
+      (1 / (r0 + (eta0 * g.1 + zeta0 * g.2.1)) * (X * (eta0 * g.1 + zeta0 * g.2.1) - eta0 * g.2.1 - zeta0 * g.2.2 + dt),
+       1 / (r0 + (eta0 * g.1 + zeta0 * g.2.1))) := newton512_eq r0 eta0 zeta0 beta dt X
+
+/-- its G functions are the Stumpff series truncated after z⁸/19!, z⁸/18!, evaluated at the FULL argument
+    `z = β X²` — there is no argument halving and no duplication, so (unlike `c03_duplication_loop` for the
+    scalar code) the G-relations hold only up to a truncation term of order z⁹, which is not small once
+    `|β| X² ≳ 10`: with the fixed iteration schedule and no fallback this is finding FC03b. -/
+theorem c03_whfast512_series_no_halving (beta X : K) :
+    let z := X * X * beta
+    let c3 := 1/6 - z/120 + z^2/5040 - z^3/362880 + z^4/39916800 - z^5/6227020800 + z^6/1307674368000
+                - z^7/355687428096000 + z^8/121645100408832000
+    let c2 := 1/2 - z/24 + z^2/720 - z^3/40320 + z^4/3628800 - z^5/479001600 + z^6/87178291200
+                - z^7/20922789888000 + z^8/6402373705728000
+    gs13_512 beta X = (X - z * (c3 * X), c2 * (X * X), c3 * X * (X * X)) := gs13_512_eq beta X
 
 /-! ### the hypotheses are satisfiable (concrete, non-degenerate rational instances) -/
 
